@@ -197,7 +197,15 @@ class Tak(Family):
         codec, profile, fd, samples, dt, rate, bits, ch, ext, vb, spk, enc, before, unused = p
         return {"sample_rate": rate, "bits_per_sample": bits, "channels": ch, "number_of_samples": samples,
                 "length": float(samples) / float(rate),
-                "encoder_info": "" if enc is None else "TAK %d.%d.%d" % ((enc >> 16) & 255, (enc >> 8) & 255, enc & 255)}
+                "encoder_info": self._encoder(enc, before)}
+
+    @staticmethod
+    def _encoder(enc, before):
+        # an ENCODERINFO block (type 4) among the blocks in front of the stream info is an encoder block like any other: its
+        # first three bytes (the filler 00 01 02 ...) are patch, minor, major; a later one (enc) replaces it
+        if enc is None and 4 in before:
+            enc = 0x020100
+        return "" if enc is None else "TAK %d.%d.%d" % ((enc >> 16) & 255, (enc >> 8) & 255, enc & 255)
 
     def load(self, data):
         import mutagen.tak
